@@ -809,3 +809,24 @@ Proof.
     apply filter_fold_lines. exact Hrel. }
   rewrite Hparse. reflexivity.
 Qed.
+
+(* ------------------------------------------------------------------------------------------- *)
+(* comments are options; OPTIONAL fields of the parsed ASN.1 structures are accepted *)
+
+Theorem comment_option_roundtrip c : c <> Some [] -> set_comment (comment_field c) = c.
+Proof. destruct c as [[|x c]|]; intros H; try reflexivity. congruence. Qed.
+
+(* PBKDF2-params: keyLength present or absent, prf present or absent (default hmacWithSHA1) *)
+Theorem pbkdf2_optional_fields_accepted known dks salt count ks prf p :
+  known prf = true ->
+  pbkdf2_params known dks [VSeq [VOctets salt; VInt count]] = Some (salt, count, dks, HMAC_SHA1_OID) /\
+  pbkdf2_params known dks [VSeq [VOctets salt; VInt count; VInt ks]] = Some (salt, count, ks, HMAC_SHA1_OID) /\
+  pbkdf2_params known dks [VSeq [VOctets salt; VInt count; VSeq [VOid prf; p]]] = Some (salt, count, dks, prf) /\
+  pbkdf2_params known dks [VSeq [VOctets salt; VInt count; VInt ks; VSeq [VOid prf; p]]] = Some (salt, count, ks, prf).
+Proof. intros H. cbn. rewrite H. repeat split; reflexivity. Qed.
+
+(* PrivateKeyInfo: trailing attributes [0] / publicKey [1] do not change what the shape check returns *)
+Theorem pkcs8_trailing_fields_accepted ver alg prm key extra :
+  pkcs8_private_shape (VSeq (ver :: VSeq (alg :: prm) :: VOctets key :: extra)) =
+  pkcs8_private_shape (VSeq [ver; VSeq (alg :: prm); VOctets key]).
+Proof. destruct prm as [|p [|q r]]; reflexivity. Qed.
